@@ -3,7 +3,8 @@ package main
 import (
 	"fmt"
 	"os"
-	"runtime/pprof"
+	"runtime"
+	"sync"
 	"time"
 
 	"github.com/polynetwork/poly/core/types"
@@ -17,28 +18,33 @@ func main() {
 	polyenv.Setup(0, vals)
 	probe.Install()
 	s := polyenv.Key(20)
-	pool := probe.NewPool(1, vals, "c15b-", nil)
+	nw := 16
+	if len(os.Args) > 1 {
+		fmt.Sscan(os.Args[1], &nw)
+	}
+	var ballast []byte
+
+	pool := probe.NewPool(nw, vals, "c15b-", func(w *probe.Worker) {
+		w.Commit([]*types.Transaction{probe.Tx([]probe.Op{{C: probe.Put, K: 'a', V: "A-seed"}}, 1000, s)})
+	})
 	defer probe.ClosePool(pool)
-	w := pool[0]
-	p := []probe.Op{{C: probe.Put, K: 'a', V: "x"}, {C: probe.Get, K: 'a'}, {C: probe.Merkle, V: "m"}}
-	f, _ := os.Create("/tmp/c15b.prof")
-	pprof.StartCPUProfile(f)
+	bodies := probe.Bodies([]string{"PA", "PB", "DA", "MV", "NT", "FL", "C1", "C2"}, 2, "")
 	t0 := time.Now()
-	var txs []*types.Transaction
-	for i := 0; i < 2000; i++ {
-		txs = []*types.Transaction{probe.Tx(p, uint32(i), s)}
+	var wg sync.WaitGroup
+	for _, w := range pool {
+		wg.Add(1)
+		go func(w *probe.Worker) {
+			defer wg.Done()
+			for i := 0; i < 10; i++ {
+				for j := 0; j < len(bodies); j++ {
+					progs := [][]probe.Op{probe.WithReads(probe.Relabel(bodies[i], "t0.")), probe.WithReads(probe.Relabel(bodies[j], "t1."))}
+					w.Exec([]*types.Transaction{probe.Tx(progs[0], 1, s), probe.Tx(progs[1], 2, s)})
+				}
+			}
+		}(w)
 	}
-	fmt.Println("tx build", time.Since(t0)/2000)
-	t0 = time.Now()
-	var b *types.Block
-	for i := 0; i < 2000; i++ {
-		b = w.DryBlock(txs)
-	}
-	fmt.Println("dryblock", time.Since(t0)/2000)
-	t0 = time.Now()
-	for i := 0; i < 2000; i++ {
-		w.Ch.L.ExecuteBlock(b)
-	}
-	fmt.Println("exec", time.Since(t0)/2000)
-	pprof.StopCPUProfile()
+	wg.Wait()
+	n := nw * 10 * len(bodies)
+	fmt.Println("blocks", n, "wall", time.Since(t0), "per block", time.Since(t0)/time.Duration(n))
+	runtime.KeepAlive(ballast)
 }
